@@ -107,12 +107,22 @@ static int gen_poly(Poly *P, int i, int quick) {
                   for (int h = 0; h < nh; h++) { double off = (h - (nh - 1) / 2.0) * step; double cx = -sin(rot) * off, cy = cos(rot) * off; int hn = 4 + 2 * (int)vt_randn(3);
                       if (make_loop(P->hole[h], hn, lat0 + cy, lng0 + cx / cos(lat0), hr, 0.9, sq, rot, (int)vt_randn(2))) return 1; P->holes[h].numVerts = hn; P->holes[h].verts = P->hole[h]; }
                   if (target < 120) target = 120; if (nh > 1 && target < 400) target = 400; break; }
+        case 13: { /* a fat polygon whose hole is a thick C: the disc inside the C belongs to the polygon and is joined to the rest only through a slit
+                      narrower than a cell (a fill that spreads from the outline has to be seeded from the hole's outline too) */
+                  P->kind = "pocket"; n = 6 + (int)vt_randn(8); if (make_loop(P->outer, n, lat0, lng0, r, 0.9, 1, 0, rev)) return 1;
+                  P->res = pick_res_for(r * 0.7, 300 + 300 * vt_rand01()); double e = edge_rads(P->res); double R1 = r * (0.2 + 0.08 * vt_rand01()), R2 = r * (0.45 + 0.1 * vt_rand01());
+                  double slit = e * (0.02 + 0.3 * vt_rand01()); double eps = slit / 2 / R1; double a0 = vt_rand01() * 6.28; int m = 14, hn = 0; int hrev = (int)vt_randn(2);
+                  for (int k = 0; k < m; k++) { double a = a0 + eps + (6.2831853 - 2 * eps) * k / (m - 1); P->hole[0][hn].lat = lat0 + R2 * sin(a); P->hole[0][hn].lng = wrap_lng(lng0 + R2 * cos(a) / cos(lat0)); hn++; }
+                  for (int k = m - 1; k >= 0; k--) { double a = a0 + eps + (6.2831853 - 2 * eps) * k / (m - 1); P->hole[0][hn].lat = lat0 + R1 * sin(a); P->hole[0][hn].lng = wrap_lng(lng0 + R1 * cos(a) / cos(lat0)); hn++; }
+                  if (hrev) for (int k = 0; k < hn / 2; k++) { LatLng t = P->hole[0][k]; P->hole[0][k] = P->hole[0][hn - 1 - k]; P->hole[0][hn - 1 - k] = t; }
+                  for (int k = 0; k < hn; k++) if (fabs(P->hole[0][k].lat) > g_latmax) return 1;
+                  P->holes[0].numVerts = hn; P->holes[0].verts = P->hole[0]; nh = 1; break; }
         default: { /* the boundary of a cell (or of a coarser ancestor) as the polygon: edges run exactly along cell edges */
                   P->kind = "cellshape"; int res = (int)vt_randn(14); LatLng g0 = {lat0, lng0}; H3Index c; if (latLngToCell(&g0, res, &c)) return 1; CellBoundary cb; if (cellToBoundary(c, &cb)) return 1;
                   n = cb.numVerts; for (int k = 0; k < n; k++) { P->outer[k] = cb.verts[k]; if (fabs(cb.verts[k].lat) > 1.48) return 1; } P->res = res + (int)vt_randn(3); if (P->res > 15) P->res = 15; { PLoop t; ploop_from(P->outer, n, &t); int ok = t.closes; ploop_free(&t); if (!ok) return 1; } break; }
     }
     P->g.geoloop.numVerts = n; P->g.geoloop.verts = P->outer; P->g.numHoles = nh;
-    if (kind != 5 && kind != 8 && kind != 9 && kind != 12) P->res = pick_res_for(kind == 4 ? r * 0.15 : r * 0.7, target);
+    if (kind != 5 && kind != 8 && kind != 9 && kind != 12 && kind != 13) P->res = pick_res_for(kind == 4 ? r * 0.15 : r * 0.7, target);
     /* keep the width well below 180 degrees */
     PLoop t; ploop_from(P->outer, n, &t); int bad = !t.closes || (t.maxx - t.minx) > 2.4; ploop_free(&t);
     return bad;
@@ -209,6 +219,19 @@ static int bbox_main(int quick, const char *path) {
 
 /* A small polygon inside the descendant of a coarse cell that lies farthest from the coarse cell's centre: the hierarchical fill
  * reaches it only if the child-covering bounding boxes of all its ancestors cover it (the Covering guarantee of H3PolyIter). */
+/* a thin triangle that enters cell c through boundary segment k only: apex a little inside across the middle of the segment, base outside */
+static int gen_probe_poly(Poly *P, H3Index c, int k) {
+    memset(P, 0, sizeof *P); CellBoundary cb; LatLng ctr; if (cellToBoundary(c, &cb) || cellToLatLng(c, &ctr) || k >= cb.numVerts) return 1;
+    V3 a = v3_of(&cb.verts[k]), b = v3_of(&cb.verts[(k + 1) % cb.numVerts]), o = v3_of(&ctr); V3 mid = v3_lerp(a, b, 0.35 + 0.3 * vt_rand01());
+    V3 in = v3_lerp(mid, o, 0.08 + 0.1 * vt_rand01()); V3 out = v3_lerp(mid, o, -(0.3 + 0.3 * vt_rand01()));
+    V3 q1 = v3_lerp(out, v3_lerp(a, b, 0.2), 0.15), q2 = v3_lerp(out, v3_lerp(a, b, 0.8), 0.15);
+    LatLng g0 = ll_of(in), g1 = ll_of(q1), g2 = ll_of(q2);
+    if (fabs(g0.lat) > 1.48 || fabs(g1.lat) > 1.48 || fabs(g2.lat) > 1.48) return 1;
+    int rev = (int)vt_randn(2); P->outer[0] = g0; P->outer[1] = rev ? g2 : g1; P->outer[2] = rev ? g1 : g2;
+    P->g.geoloop.numVerts = 3; P->g.geoloop.verts = P->outer; P->g.numHoles = 0; P->g.holes = P->holes; P->kind = "segment-probe"; P->res = getResolution(c);
+    PLoop t; ploop_from(P->outer, 3, &t); int bad = !t.closes || (t.maxx - t.minx) > 2.4; ploop_free(&t); return bad;
+}
+
 static int gen_corner_poly(Poly *P, int ares, int tres, int mode) {
     memset(P, 0, sizeof *P); H3Index c = 0;
     if (mode == 0) { int f = (int)vt_randn(20); LatLng fc = {VERIF_FACE_CENTER[f][0] + 0.02 * (vt_rand01() - 0.5), VERIF_FACE_CENTER[f][1] + 0.02 * (vt_rand01() - 0.5)}; latLngToCell(&fc, ares, &c); }   /* the largest cells of a resolution sit at the face centres */
@@ -239,7 +262,14 @@ int main(int argc, char **argv) {
     /* polygons made from cell boundaries: edges and vertices coincide with those of the cells being tested (touching contacts) */
     g_force_kind = 9; for (int i = 0; i < (quick ? 160 : 1500); i++) { Poly P; if (gen_poly(&P, i, quick)) continue; fill_event(&P, maxcand); } g_force_kind = -1;
     /* concave features: wedges cut into the rim, parallel bands of holes whose bounding boxes overlap */
-    for (int i = 0; i < (quick ? 90 : 900); i++) { Poly P; g_force_kind = 10 + (i % 3 != 0); if (gen_poly(&P, i, quick)) continue; fill_event(&P, maxcand); } g_force_kind = -1;
+    for (int i = 0; i < (quick ? 90 : 900); i++) { Poly P; g_force_kind = i % 4 == 3 ? 13 : 10 + (i % 3 != 0); if (gen_poly(&P, i, quick)) continue; fill_event(&P, maxcand); } g_force_kind = -1;
+    /* every boundary segment of the pentagons (10 segments at odd resolutions), of their neighbours and of cells cut by icosahedron edges */
+    for (int res = 1; res <= (quick ? 5 : 11); res++) { H3Index pp[12]; getPentagons(res, pp); CellVec cv = {0};
+        for (int q = 0; q < 12; q++) { if (quick && (res % 2 == 0) && q % 3) continue; cv_push(&cv, pp[q]); H3Index d[7] = {0}; gridDisk(pp[q], 1, d); cv_push(&cv, d[1 + vt_randn(5)]); }
+        if (res >= 3 && (res % 2)) cv_seam_cells(&cv, res, 1);
+        for (int64_t i = 0; i < cv.n; i++) { if (!cv.v[i]) continue; CellBoundary cb; if (cellToBoundary(cv.v[i], &cb)) continue; if (quick && i >= 24 && cb.numVerts <= 6 && (i % 4)) continue;
+            for (int k = 0; k < cb.numVerts; k++) { Poly P; if (gen_probe_poly(&P, cv.v[i], k)) continue; fill_event(&P, maxcand); } }
+        cv_free(&cv); }
     for (int ares = 0; ares <= 14; ares++) for (int tres = ares + 1; tres <= 15 && tres <= ares + 5; tres++) for (int k = 0; k < (quick ? 3 : 15); k++) { Poly P; if (gen_corner_poly(&P, ares, tres, k % 3)) continue; fill_event(&P, maxcand); }
     fprintf(stderr, "events=%ld candidates=%ld ambiguous-centres=%ld\n", n_ev, n_cand, n_amb);
     vt_close(); return 0;
